@@ -419,9 +419,9 @@ def rule_phase_order(ctx, c, rule, pairs):
 def map_ops(c, fn):
     """Calls in fn on the active-collector map: [(block, op, key role)]"""
     out = []
-    for b in fn.calls_re(r"HashMap::<K, V, S, A>::\w+$", cleanup=False):
+    for b in fn.calls_re(r"HashMap::<K, V, S, A>::\w+$|hash::map::HashMap<K, V, S, A> as core::iter::traits::collect::Extend<.*>>::extend$|Extend<\(K, V\)>>::extend$", cleanup=False):
         t = fn.term(b)
-        if "ActiveCollector" not in t["arg_tys"][0]:
+        if "ActiveCollector" not in t["arg_tys"][0] or "HashMap<" not in t["arg_tys"][0]:
             continue
         op = t["callee"].rsplit("::", 1)[1]
         role = None
@@ -576,6 +576,15 @@ def rule_map_ops(ctx, c, rule):
             allops.append((g, b, op, role))
     grows = [(g, b, op, role) for g, b, op, role in allops if op in GROW]
     ins = [(g, b) for g, b, op, role in grows if op == "insert" and role == "start" and g is fn]
+    if not ins:
+        # the same insertion written as `map.extend(start_collects.drain(..).filter(keep).map(|s| (s.collect_id, ..)))`: one entry per
+        # start that passes the filter, keyed by the start's id, nothing selected or added besides
+        for g, b, op, role in grows:
+            if op == "extend" and role == "start" and g is fn:
+                src = c.prov.of_operand(fn, fn.term(b)["args"][1])
+                via = {v[1].rsplit("::", 1)[1] for o in src for v in o.via if v[0] == "call" and "Iterator" in v[1]}
+                if via <= {"filter", "map", "into_iter", "by_ref"} and "map" in via:
+                    ins.append((g, b))
     ctx.check(len(grows) == 1 and len(ins) == 1, rule, HC, fn.loc(ins[0][1]) if ins else fn.span,
               "the only operation that grows active_collectors is one insert keyed by StartCollect.collect_id",
               "", "growing operations: %s" % [(g.path, g.loc(b), op, role) for g, b, op, role in grows], extra="grow")
@@ -635,10 +644,35 @@ def rule_insert_tolerates_late_start(ctx, c, rule):
     """C08-R4: a StartCollect read after its CommitCollect/DropCollect must not leave an entry behind."""
     fn = c.fn
     ins = [(b) for b, op, role in map_ops(c, fn) if op == "insert" and role == "start"]
+    prov = c.prov
     if not ins:
+        # extend form: the membership test is the `filter` on the way from the start vector to the map
+        for b, op, role in map_ops(c, fn):
+            if op != "extend" or role != "start":
+                continue
+            src = prov.of_operand(fn, fn.term(b)["args"][1])
+            fblocks = sorted({v[2] for o in src for v in o.via if v[0] == "call" and v[1].endswith("Iterator::filter") and v[2] < len(fn.blocks)})
+            ok = False
+            for fb in fblocks:
+                t = fn.term(fb)
+                cd = prov._closure_def(fn, t["args"][1]) if t["k"] == "call" and len(t["args"]) > 1 else None
+                if not cd:
+                    continue
+                ret = prov.resolve_upvars(cd[0], prov.of_local(cd[0], 0))
+                dep_item = any(o.kind == "param" and o.key == 2 for o in prov.of_local(cd[0], 0))
+                dep_state = any(o.kind == "param" and o.key == 1 and o.path and o.path[0] not in
+                                ("." + c.roles["start"], "." + c.roles["config"], "." + c.roles["reporter"]) for o in ret) or \
+                    any(v[0] == "call" and re.search(r"(HashSet|BTreeSet|HashMap|Vec)(::<.*>)?::(contains|contains_key|binary_search)", v[1]) for o in ret for v in o.via)
+                ok = ok or (dep_item and dep_state)
+            ctx.check(ok, rule, HC, fn.loc(b),
+                      "the insert for a StartCollect is conditional on the id not having been committed or dropped already "
+                      "(a trace's start and commit travel through different threads' queues and receivers are drained one "
+                      "after another, so a start can be read one cycle after its commit)",
+                      "filtered by a membership test before the map is extended", "extend of active_collectors from the start vector without a "
+                      "filter on collector state: a start read after its commit is inserted and never removed", extra="insert")
+            return
         ctx.fail(rule, HC, fn.span, "StartCollect inserts an active collector", "anchor lost", extra="insert-anchor")
         return
-    prov = c.prov
     for b in ins:
         # accepted: the insert is guarded by a test whose value depends on the start id and on collector state
         # other than the start vector itself (a tombstone / finished-set lookup)
